@@ -347,6 +347,54 @@ def sharing_checks(acc, tier, part=0, parts=1):
                         break
 
 
+def mutation_checks(acc):
+    """DirectCalendar.set_units after the calendar was queried, composed and wrapped in a Resource: every later lookup and
+    search answers for the new content (nothing cached)."""
+    from pjplan import DirectCalendar, WeeklyCalendar, Resource
+    ds = dates()
+    base_units = ((LO, 8), (LO + DAY, 0))
+    # one of the new dates is given with a time of day, as the constructor accepts it
+    new_units = ((LO + DAY, 4), (LO + 3 * DAY + timedelta(hours=15, minutes=30), 2), (LO + 20 * DAY, 8))
+    for other in [None] + [l for l in LEAVES if l[0] != 'dc'][:6]:
+        for o in OPS:
+            dc = DirectCalendar(dict(base_units))
+            cal = dc
+            e0 = ('dc', base_units)
+            merged = dict(base_units)
+            merged.update(dict(new_units))
+            e1 = ('dc', tuple(merged.items()))
+            if other is not None:
+                ob = build(other)
+                cal = {'+': dc + ob, '-': dc - ob, '*': dc * ob, '/': dc / ob, '|': dc | ob}[o]
+                e0, e1 = ('op', o, e0, other), ('op', o, e1, other)
+            elif o != '+':
+                continue
+            res = Resource('r', cal)
+            # query everything once, then change the dated calendar
+            for d in ds:
+                if ref(e0, d) != 'UNDEF':
+                    cal.get_available_units(d)
+                    res.get_available_units(d)
+            try:
+                res.get_nearest_availability_date(LO, 1, 7)
+            except (RuntimeError, ZeroDivisionError):
+                pass
+            dc.set_units(dict(new_units))
+            acc.count('mutation_cases')
+            acc.count('nontrivial')
+            for d in ds:
+                exp = ref(e1, d)
+                if exp == 'UNDEF':
+                    continue
+                got = cal.get_available_units(d)
+                acc.count('lookups')
+                if not veq(got, exp):
+                    acc.violation('C17', f'mutation/stale-after-set_units/{o if other is not None else "leaf"}',
+                                  f'after set_units: {show(e1)} on {d}: got {got}, reference {exp}', {'expr': show(e1), 'date': str(d)})
+                    break
+            search(e1, cal, res, acc)
+
+
 def constructor_checks(acc):
     from pjplan import WeeklyCalendar, DirectCalendar, FixedCalendar
     cases = []
@@ -396,6 +444,7 @@ def run(rep):
     chunks = [(i, k, 'exprs') for i in range(k)] + [(i, nw, 'leaves') for i in range(nw)] + [(i, k, 'sharing') for i in range(k)]
     runtime.run_chunks(_work, chunks, rep.acc)
     constructor_checks(rep.acc)
+    mutation_checks(rep.acc)
     c = rep.acc.counters
     rep.coverage.update({
         'evaluations': c['lookups'] + c['searches'] + c['constructor_cases'],
